@@ -155,10 +155,67 @@ _types: typing.Dict[str, typing.Any] = {}
 _counter = [0]
 
 
-def build(ty):
-    """The pydsdl type of a description, through the public constructors only (cached per process)."""
+def n_comps(ty) -> int:
+    """Number of composites in a description (= length of the attribute plan of the type, see `attr_list`)."""
+    return sum(1 for t in t_walk(ty) if t[0] in ("struct", "union"))
+
+
+def plan_norm(plan):
+    return plan if plan and any(plan) else None
+
+
+def plan_slices(ty, plan):
+    """Attribute plan of a composite split into (own entry, [plan of field 0, plan of field 1, ..]); the plan lists the
+    composites of the tree in the order of t_walk (parent first, then its members in declaration order)."""
+    if not plan:
+        return None, [None] * len(ty[1])
+    idx = 1
+    subs = []
+    for f in ty[1]:
+        c = n_comps(f)
+        subs.append(plan_norm(plan[idx:idx + c]))
+        idx += c
+    return plan[0], subs
+
+
+def attr_list(P, fields: list, own, cprefix: str = "C"):
+    """The attribute list handed to the constructor: the fields / padding fields in declaration order with CONSTANTS
+    put in front of the positions listed in `own` (position len(fields) = behind the last field).  Constants belong to
+    the definition but take no part in the serialized representation, wherever they stand in the list."""
+    if not own:
+        return list(fields)
+    cm = P.PrimitiveType.CastMode
+    out = []
+    j = 0
+    n = len(fields)
+
+    def const(j):
+        name = "%s%d" % (cprefix, j)
+        w = j % 4
+        if w == 0:
+            return P.Constant(P.UnsignedIntegerType(8, cm.SATURATED), name, P.Rational(j % 256))
+        if w == 1:
+            return P.Constant(P.SignedIntegerType(16, cm.SATURATED), name, P.Rational(-j))
+        if w == 2:
+            return P.Constant(P.BooleanType(), name, P.Boolean(True))
+        return P.Constant(P.FloatType(32, cm.SATURATED), name, P.Rational(Fraction(j, 2)))
+
+    own = sorted(min(max(0, int(p)), n) for p in own)
+    for i in range(n + 1):
+        while j < len(own) and own[j] == i:
+            out.append(const(j))
+            j += 1
+        if i < n:
+            out.append(fields[i])
+    return out
+
+
+def build(ty, plan=None):
+    """The pydsdl type of a description, through the public constructors only (cached per process).  `plan`: where
+    constants stand in the attribute lists (None = no constants; one entry per composite, see plan_slices)."""
     P = common.import_pydsdl()
-    key = json.dumps(ty)
+    plan = plan_norm(plan)
+    key = json.dumps(ty) if plan is None else json.dumps([ty, plan])
     if key in _types:
         return _types[key]
     k = ty[0]
@@ -178,20 +235,21 @@ def build(ty):
     elif k == "void":
         r = P.VoidType(ty[1])
     elif k == "farr":
-        r = P.FixedLengthArrayType(build(ty[1]), ty[2])
+        r = P.FixedLengthArrayType(build(ty[1], plan), ty[2])
     elif k == "varr":
-        r = P.VariableLengthArrayType(build(ty[1]), ty[2])
+        r = P.VariableLengthArrayType(build(ty[1], plan), ty[2])
     elif k in ("struct", "union"):
         _counter[0] += 1
         name = "T%d" % _counter[0]
+        own, subs = plan_slices(ty, plan)
         attrs = []
         for i, f in enumerate(ty[1]):
             if f[0] == "void":
                 attrs.append(P.PaddingField(build(f)))
             else:
-                attrs.append(P.Field(build(f), "f%d" % i))
+                attrs.append(P.Field(build(f, subs[i]), "f%d" % i))
         cls = P.StructureType if k == "struct" else P.UnionType
-        r = cls(name="ns." + name, version=P.Version(1, 0), attributes=attrs, deprecated=False, fixed_port_id=None,
+        r = cls(name="ns." + name, version=P.Version(1, 0), attributes=attr_list(P, attrs, own), deprecated=False, fixed_port_id=None,
                 source_file_path=Path("ns") / (name + ".1.0.dsdl"), has_parent_service=False)
         if ty[2] is not None:
             r = P.DelimitedType(r, ty[2])
@@ -203,31 +261,238 @@ def build(ty):
     return r
 
 
-def build_named(ty, gname: str, nm=None, path: str = ""):
+def build_named(ty, gname: str, nm=None, path: str = "", plan=None):
     """A FRESH pydsdl object for the description (never cached): the composite at position `path` of the tree is called
     ns.<gname><path>, its fields are named by nm.  Two descriptions built with one gname therefore share full name and
     version at every position - look-alikes whenever the library's approximate bit length set equality agrees."""
     P = common.import_pydsdl()
     k = ty[0]
+    plan = plan_norm(plan)
     if k in PRIMS:
         return build(ty)
     if k == "farr":
-        return P.FixedLengthArrayType(build_named(ty[1], gname, nm, path + "e"), ty[2])
+        return P.FixedLengthArrayType(build_named(ty[1], gname, nm, path + "e", plan), ty[2])
     if k == "varr":
-        return P.VariableLengthArrayType(build_named(ty[1], gname, nm, path + "e"), ty[2])
+        return P.VariableLengthArrayType(build_named(ty[1], gname, nm, path + "e", plan), ty[2])
+    own, subs = plan_slices(ty, plan)
     attrs = []
     for i, f in enumerate(ty[1]):
         if f[0] == "void":
             attrs.append(P.PaddingField(build(f)))
         else:
-            attrs.append(P.Field(build_named(f, gname, nm, "%s_%d" % (path, i)), fname(i, nm)))
+            attrs.append(P.Field(build_named(f, gname, nm, "%s_%d" % (path, i), subs[i]), fname(i, nm)))
     name = gname + path
     cls = P.StructureType if k == "struct" else P.UnionType
-    r = cls(name="ns." + name, version=P.Version(1, 0), attributes=attrs, deprecated=False, fixed_port_id=None,
+    r = cls(name="ns." + name, version=P.Version(1, 0), attributes=attr_list(P, attrs, own, "K"), deprecated=False, fixed_port_id=None,
             source_file_path=Path("ns") / (name + ".1.0.dsdl"), has_parent_service=False)
     if ty[2] is not None:
         r = P.DelimitedType(r, ty[2])
     return r
+
+
+# ------------------------------------------------------------------------------------------- types from DSDL text / under version numbers
+#
+# A case may say where its types come from ("src"; without it: the constructors, everything under version 1.0):
+#   {"mode": "dsdl" | "ctor", "rev": [major, minor, minor'], "vers": [[major, minor], ..], "layout": "side" | "checkouts",
+#    "reader": "namespace" | "files", "svc": null | "request" | "response"}
+# dsdl: every composite of the tree is a definition file of its own, read by the front end; the two revisions of the
+# delimited type of an xrev case are two minor versions of ONE definition ns.Rev side by side in one namespace, or one
+# definition in two checkouts of the namespace that differ in that file only; any major version, 0 included; the top
+# level type may be the request / response section of a service.  The wire format knows nothing of all that.
+
+
+def nested_arrays(ty) -> bool:
+    """Arrays of arrays cannot be spelled in DSDL text."""
+    return any(t[0] in ("farr", "varr") and t[1][0] in ("farr", "varr") for t in t_walk(ty))
+
+
+def rev_path(a, b, path=()):
+    """Position of the revised definition: where two descriptions have member lists of different lengths."""
+    if a == b:
+        return None
+    k = a[0]
+    if k != b[0] or k in PRIMS:
+        return path
+    if k in ("farr", "varr"):
+        return rev_path(a[1], b[1], path + (1,))
+    if len(a[1]) != len(b[1]):
+        return path
+    for i, (x, y) in enumerate(zip(a[1], b[1])):
+        if x != y:
+            return rev_path(x, y, path + (1, i))
+    return path
+
+
+def gen_version(rng: random.Random, major=None):
+    major = rng.choice([0, 0, 0, 1, 1, 2, 3, 100, 255]) if major is None else major
+    minor = rng.choice([0, 1, 1, 2, 3, 9, 200, 255])
+    if major == 0 and minor == 0:
+        minor = 1  # 0.0 is not a version
+    return [major, minor]
+
+
+def gen_src(rng: random.Random, tys: list):
+    mode = "dsdl" if rng.random() < 0.65 and not any(nested_arrays(t) for t in tys) else "ctor"
+    major, m1 = gen_version(rng)
+    m2 = rng.choice([m for m in (m1 + 1, m1 - 1, m1 + 7, 255, 1, rng.randint(0, 255)) if 0 <= m <= 255 and m != m1 and (major, m) != (0, 0)])
+    vers = [gen_version(rng, major if rng.random() < 0.3 else None) for _ in range(rng.randint(1, 3))]
+    return {"mode": mode, "rev": [major, m1, m2], "vers": vers, "layout": rng.choice(["side", "side", "checkouts"]),
+            "reader": rng.choice(["namespace", "files"]), "svc": rng.choice([None, None, "request", "response"])}
+
+
+def prim_text(ty) -> str:
+    k = ty[0]
+    if k in ("bool", "byte", "utf8"):
+        return k
+    if k == "void":
+        return "void%d" % ty[1]
+    return "%s %s%d" % ("saturated" if ty[2] == "sat" else "truncated", {"uint": "uint", "sint": "int", "float": "float"}[k], ty[1])
+
+
+class Emit:
+    """One type tree as DSDL text (file name -> text)."""
+
+    def __init__(self, src, side: int, rpath, prefix: str):
+        self.src, self.side, self.rpath, self.prefix = src, side, rpath, prefix
+        self.files: typing.Dict[str, str] = {}
+        self.n = 0
+
+    def type_text(self, ty, path, plan) -> str:
+        k = ty[0]
+        if k in PRIMS:
+            return prim_text(ty)
+        if k == "farr":
+            return "%s[%d]" % (self.type_text(ty[1], path + (1,), plan), ty[2])
+        if k == "varr":
+            return "%s[<=%d]" % (self.type_text(ty[1], path + (1,), plan), ty[2])
+        if path == self.rpath:
+            r = self.src["rev"]
+            name, ver = "Rev", [r[0], r[1] if (self.side == 0 or self.src["layout"] == "checkouts") else r[2]]
+        else:
+            self.n += 1
+            name, ver = "%s%d" % (self.prefix, self.n), self.src["vers"][self.n % len(self.src["vers"])]
+        self.files["%s.%d.%d.dsdl" % (name, ver[0], ver[1])] = self.def_text(ty, path, plan)
+        return "ns.%s.%d.%d" % (name, ver[0], ver[1])
+
+    def def_text(self, ty, path, plan) -> str:
+        own, subs = plan_slices(ty, plan_norm(plan))
+        n = len(ty[1])
+        own = sorted(min(max(0, int(p)), n) for p in (own or []))
+        lines = ["@union"] if ty[0] == "union" else []
+        for i in range(n + 1):
+            lines += ["uint8 C%d = %d" % (j, j % 256) for j, p in enumerate(own) if p == i]
+            if i < n:
+                f = ty[1][i]
+                ft = self.type_text(f, path + (1, i), subs[i])
+                lines.append(ft if f[0] == "void" else "%s f%d" % (ft, i))
+        lines.append("@sealed" if ty[2] is None else "@extent %d" % ty[2])
+        return "\n".join(lines) + "\n"
+
+
+def build_dsdl(tys: list, plans: list, src) -> list:
+    """The pydsdl objects of one or two (writer, reader) descriptions, read from generated DSDL text."""
+    import shutil
+    import tempfile
+    P = common.import_pydsdl()
+    rpath = rev_path(tys[0], tys[1]) if len(tys) == 2 else None
+    checkouts = src["layout"] == "checkouts" and len(tys) == 2
+    tv = src["vers"][0]
+    d = Path(tempfile.mkdtemp(prefix="verif_wire_"))
+    try:
+        dirs = [d / "a" / "ns", d / "b" / "ns"] if checkouts else [d / "ns", d / "ns"]
+        names = []
+        for side, ty in enumerate(tys):
+            dirs[side].mkdir(parents=True, exist_ok=True)
+            suffix = "" if checkouts else "AB"[side]
+            em = Emit(src, side, rpath, "T" if checkouts else "AB"[side])
+            text = em.def_text(ty, (), plans[side])
+            filler = "uint8 x\n@sealed\n"
+            if src["svc"] == "request":
+                text = text + "---\n" + filler
+            elif src["svc"] == "response":
+                text = filler + "---\n" + text
+            name = ("Svc" if src["svc"] else "Top") + suffix
+            em.files["%s.%d.%d.dsdl" % (name, tv[0], tv[1])] = text
+            for fn, tx in em.files.items():
+                (dirs[side] / fn).write_text(tx)
+            names.append(name)
+        out = []
+        read: dict = {}
+        for side in range(len(tys)):
+            key = str(dirs[side])
+            if key not in read:
+                if src["reader"] == "namespace":
+                    read[key] = P.read_namespace(dirs[side], [])
+                else:
+                    read[key] = P.read_files(sorted(p for p in dirs[side].iterdir() if p.name.startswith(("Top", "Svc"))), [dirs[side]], [])[0]
+            found = [t for t in read[key] if t.short_name == names[side] and [t.version.major, t.version.minor] == list(tv)]
+            if len(found) != 1:
+                raise RuntimeError("definition %s not among the types read" % names[side])
+            obj = found[0]
+            if src["svc"]:
+                obj = obj.request_type if src["svc"] == "request" else obj.response_type
+            out.append(obj)
+        return out
+    finally:
+        shutil.rmtree(d, ignore_errors=True)
+
+
+def build_versioned(tys: list, plans: list, src) -> list:
+    """The same through the constructors (fresh objects, never cached), under the version numbers of the case."""
+    P = common.import_pydsdl()
+    rpath = rev_path(tys[0], tys[1]) if len(tys) == 2 else None
+    out = []
+    for side, top in enumerate(tys):
+        counter = [0]
+        _counter[0] += 1
+        g = "V%d" % _counter[0]
+
+        def mk(ty, path, plan, is_top=False):
+            k = ty[0]
+            if k in PRIMS:
+                return build(ty)
+            if k == "farr":
+                return P.FixedLengthArrayType(mk(ty[1], path + (1,), plan), ty[2])
+            if k == "varr":
+                return P.VariableLengthArrayType(mk(ty[1], path + (1,), plan), ty[2])
+            own, subs = plan_slices(ty, plan_norm(plan))
+            attrs = []
+            for i, f in enumerate(ty[1]):
+                attrs.append(P.PaddingField(build(f)) if f[0] == "void" else P.Field(mk(f, path + (1, i), subs[i]), "f%d" % i))
+            counter[0] += 1
+            if path == rpath:
+                name, ver = g + "Rev", [src["rev"][0], src["rev"][1 + side]]
+            else:
+                name, ver = "%sT%d" % (g, counter[0]), src["vers"][counter[0] % len(src["vers"])]
+            svc = is_top and src["svc"] is not None
+            if svc:
+                name, ver = g + "Svc." + src["svc"].capitalize(), src["vers"][0]
+            fp = Path("ns") / ("%s.%d.%d.dsdl" % (name.split(".")[0], ver[0], ver[1]))
+            cls = P.StructureType if k == "struct" else P.UnionType
+            r = cls(name="ns." + name, version=P.Version(ver[0], ver[1]), attributes=attr_list(P, attrs, own), deprecated=False,
+                    fixed_port_id=None, source_file_path=fp, has_parent_service=svc)
+            if ty[2] is not None:
+                r = P.DelimitedType(r, ty[2])
+            if svc:
+                other = P.StructureType(name="ns.%sSvc.%s" % (g, "Response" if src["svc"] == "request" else "Request"),
+                                        version=P.Version(ver[0], ver[1]), attributes=[], deprecated=False, fixed_port_id=None,
+                                        source_file_path=fp, has_parent_service=True)
+                s = P.ServiceType(r, other, None) if src["svc"] == "request" else P.ServiceType(other, r, None)
+                r = s.request_type if src["svc"] == "request" else s.response_type
+            return r
+
+        out.append(mk(top, (), plans[side], True))
+    return out
+
+
+def case_types(case, keys) -> list:
+    """The pydsdl objects of the types of a case: keys = [(type key, plan key), ..]."""
+    tys = [case[k] for k, _ in keys]
+    plans = [case.get(a) for _, a in keys]
+    src = case.get("src")
+    if src is None:
+        return [build(t, p) for t, p in zip(tys, plans)]
+    return (build_dsdl if src["mode"] == "dsdl" else build_versioned)(tys, plans, src)
 
 
 # ------------------------------------------------------------------------------------------- own bit length sets (small types)
@@ -601,6 +866,99 @@ def reference_bytes(ty, c, hdr: bool) -> typing.Tuple[bytes, typing.List[dict]]:
     return acc.bytes(), acc.marks
 
 
+# ------------------------------------------------------------------------------------------- reference reading of a byte string
+
+class ScanStop(Exception):
+    def __init__(self, why: str):
+        super().__init__(why)
+        self.why = why
+
+
+class Scan:
+    """The Specification's reading of a byte string with a type, as far as it decides ACCEPT / REJECT: the data is one
+    integer (bit i of the stream = bit i of the integer); a window [.., end) bounds what may be looked at - the whole
+    buffer, or the payload a delimiter header announces - and everything behind the end of the window reads as ZERO
+    (implicit zero extension), never as what happens to follow.  Only three things reject a byte string: a length
+    prefix above the capacity, a union tag that names no variant, and a delimiter header announcing more bytes than
+    its window has left.  Values are not computed.  Independent of the library and of the Lean model."""
+
+    BUDGET = 400000
+
+    def __init__(self, data: bytes):
+        self.v = int.from_bytes(data, "little")
+        self.steps = 0
+        self.headers: typing.List[dict] = []  # every delimiter header met: position, value, bits left behind it
+
+    def read(self, pos: int, w: int, end: int) -> int:
+        avail = max(0, min(w, end - pos))
+        return (self.v >> pos) & ((1 << avail) - 1) if avail else 0
+
+    def tick(self, n: int = 1):
+        self.steps += n
+        if self.steps > self.BUDGET:
+            raise ScanStop("budget")
+
+    def scan(self, ty, pos: int, end: int, strip_header: bool = False) -> int:
+        """Position behind the representation of one object of type ty that starts at pos."""
+        self.tick()
+        k = ty[0]
+        if k in PRIMS:
+            return pos + prim_bits(ty)
+        if k in ("farr", "varr"):
+            e = ty[1]
+            n = ty[2]
+            if k == "varr":
+                w = len_bits(ty[2])
+                n = self.read(pos, w, end)
+                pos += w
+                if n > ty[2]:
+                    raise ScanStop("len")
+            if e[0] in PRIMS:
+                return pos + n * prim_bits(e)
+            for _ in range(n):
+                pos = self.scan(e, pos, end)
+            return pos
+        if ty[2] is not None and not strip_header:
+            size = self.read(pos, 32, end)
+            pos += 32
+            left = max(0, end - pos)
+            self.headers.append({"at": pos - 32, "size": size, "left": left})
+            if 8 * size > left:
+                raise ScanStop("hdr")
+            self.scan([k, ty[1], None], pos, pos + 8 * size)
+            return pos + 8 * size  # the object ends where its header says, whatever its fields made of the payload
+        if k == "struct":
+            for f in ty[1]:
+                pos += pad(pos, t_align(f))
+                pos = self.scan(f, pos, end)
+        else:
+            w = tag_bits(len(ty[1]))
+            tag = self.read(pos, w, end)
+            pos += w
+            if tag >= len(ty[1]):
+                raise ScanStop("tag")
+            pos += pad(pos, t_align(ty[1][tag]))
+            pos = self.scan(ty[1][tag], pos, end)
+        return pos + pad(pos, 8)
+
+
+SCAN_WHAT = {"len": "an array length above the capacity", "tag": "a union tag out of range",
+             "hdr": "a delimiter header larger than the remaining data"}
+SCAN_CLASS = {"serdes:ArrayLengthError": "no array length above its capacity", "serdes:UnionTagError": "no union tag out of range",
+              "serdes:DelimiterHeaderError": "no delimiter header larger than the data left in its window"}
+
+
+def ref_scan(ty, data: bytes, hdr: bool) -> typing.Tuple[typing.Optional[str], typing.List[dict]]:
+    """(None | "len" | "tag" | "hdr" | "budget", delimiter headers met): does the Specification accept the byte string,
+    and if not, what is the first thing that rejects it."""
+    sc = Scan(data)
+    try:
+        sc.scan(ty, 0, 8 * len(data), strip_header=not hdr)
+    except ScanStop as ex:
+        return ex.why, sc.headers
+    return None, sc.headers
+
+
 # ------------------------------------------------------------------------------------------- Python objects of the library
 
 def fname(i: int, nm=None) -> str:
@@ -743,9 +1101,9 @@ def bls_card_estimate(ty) -> int:
     return min(10**9, sum(bls_card_estimate(f) for f in ty[1]))
 
 
-def bls_check(T, ty, hdr: bool, nbits: int) -> typing.Optional[str]:
+def bls_check(T, ty, hdr: bool, nbits: int, plan=None, src=None) -> typing.Optional[str]:
     """Is nbits an element of the real type's bit_length_set (inner type's when written without header)?"""
-    key = json.dumps([ty, hdr])
+    key = json.dumps([ty, hdr, plan_norm(plan), src])
     TT = T if (hdr or ty[2] is None) else T.inner_type
     tyy = ty if hdr else [ty[0], ty[1], None]
     if key not in _bls_cache:
@@ -1008,6 +1366,84 @@ def relax(rng: random.Random, ty, v):
     return {"d": [[a, kv[a]] for a in order]}
 
 
+def gen_attr_plan(rng: random.Random, ty):
+    """Where the constants of the definitions stand in the attribute lists handed to the constructors: in front of all
+    fields, behind them (the only order the DSDL front end produces), one in front of every field, or anywhere.  One
+    entry per composite of the tree (None = no constants)."""
+    plan: typing.List[typing.Any] = []
+    for t in t_walk(ty):
+        if t[0] not in ("struct", "union"):
+            continue
+        n = len(t[1])
+        if rng.random() < 0.25:
+            plan.append(None)
+            continue
+        style = rng.choice(["first", "last", "each", "random", "random"])
+        if style == "each" and (n > 12 or n == 0):
+            style = "first"
+        if style == "first":
+            own = [0] * rng.randint(1, 3)
+        elif style == "last":
+            own = [n] * rng.randint(1, 3)
+        elif style == "each":
+            own = list(range(n)) + ([n] if rng.random() < 0.5 else [])
+        else:
+            own = sorted(rng.randint(0, n) for _ in range(rng.randint(1, 4)))
+        plan.append(own)
+    return plan_norm(plan)
+
+
+def plan_class(ty, plan) -> str:
+    plan = plan_norm(plan)
+    if plan is None:
+        return "none"
+    comps = [t for t in t_walk(ty) if t[0] in ("struct", "union")]
+    front = any(own and any(p < len(t[1]) for p in own) for t, own in zip(comps, plan))
+    return "constants-in-front-of-fields" if front else "constants-last-only"
+
+
+def plan_full(ty, plan) -> list:
+    plan = list(plan or [])
+    n = n_comps(ty)
+    return (plan + [None] * n)[:n]
+
+
+def plan_drop_field(ty, plan, j: int):
+    """The plan of composite `ty` after member j was removed from it."""
+    if plan_norm(plan) is None:
+        return None
+    plan = plan_full(ty, plan)
+    own = [p if p <= j else p - 1 for p in (plan[0] or [])] or None
+    out = [own]
+    idx = 1
+    for i, f in enumerate(ty[1]):
+        c = n_comps(f)
+        if i != j:
+            out += plan[idx:idx + c]
+        idx += c
+    return plan_norm(out)
+
+
+def _shrink_plans(case, keys=("attrs", "attrsW", "attrsR")):
+    for key in keys:
+        plan = plan_norm(case.get(key))
+        if plan is None:
+            continue
+        c = dict(case)
+        c[key] = None
+        yield c
+        for i, own in enumerate(plan):
+            if own:
+                c = dict(case)
+                c[key] = plan[:i] + [None] + plan[i + 1:]
+                yield c
+                if len(own) > 1:
+                    for own2 in (own[:1], own[-1:]):
+                        c = dict(case)
+                        c[key] = plan[:i] + [own2] + plan[i + 1:]
+                        yield c
+
+
 def gen_enc_case(rng: random.Random, ty, kind: str) -> dict:
     st = {"omit": rng.choice([0.0, 0.15, 0.5])}
     v = gen_value(rng, ty, st)
@@ -1088,8 +1524,9 @@ def default_input(ty):
     return None
 
 
-def gen_dec_cases(rng: random.Random, ty, count: int, short_bias: bool = False) -> typing.List[dict]:
-    """Byte strings for one type: random, valid representation and its prefixes, bit flips, sabotaged fields."""
+def gen_dec_cases(rng: random.Random, ty, count: int, short_bias: bool = False, hdr_bias: bool = False) -> typing.List[dict]:
+    """Byte strings for one type: random, valid representation and its prefixes, bit flips, sabotaged fields, delimited
+    payloads that end early, data / payloads that end at every byte position around a delimiter header."""
     out = []
     hdr = ty[2] is not None and rng.random() < 0.5
     maxb = (t_max(ty) + 7) // 8
@@ -1116,7 +1553,9 @@ def gen_dec_cases(rng: random.Random, ty, count: int, short_bias: bool = False) 
     while len(out) < count:
         x = rng.random()
         if short_bias and rng.random() < 0.45:
-            x = 0.9  # types made for it: mostly payloads that end early
+            x = 0.87  # types made for it: mostly payloads that end early
+        if hdr_bias and rng.random() < 0.7:
+            x = rng.choice([0.92, 0.97, 0.97])  # types made for it: the data / a payload ends around a delimiter header
         if x < 0.20:
             n = rng.choice([0, 1, 2, 3, rng.randint(0, min(maxb + 4, 64)), min(maxb, 300), min(maxb + 3, 300)])
             style = rng.random()
@@ -1154,10 +1593,85 @@ def gen_dec_cases(rng: random.Random, ty, count: int, short_bias: bool = False) 
             sab = sabotage(rng, data, marks)
             if sab is not None:
                 out.append(mk(sab[0], "sabotage:" + sab[1], expect_="rejected"))
-        else:
+        elif x < 0.90:
             sp = short_payload(rng, data, marks)
             if sp is not None:
                 out.append(mk(sp[0], "shortpayload:" + sp[2], junk=True, alts=[(sp[1], "zerofill")]))
+        elif x < 0.95:
+            # the DATA ends at every byte position from two bytes in front of a delimiter header to two bytes behind it
+            for n, rel in header_cuts(rng, data, marks):
+                out.append(mk(data[:n], "hdrcut:" + rel))
+        else:
+            # the PAYLOAD of an enclosing delimited object ends at every byte position around a nested delimiter header
+            cuts = inner_header_cuts(rng, data, marks)
+            if not cuts:
+                sp = short_payload(rng, data, marks)
+                cuts = [] if sp is None else [(sp[0], sp[1], "shortpayload:" + sp[2])]
+            for b1, b2, how in cuts:
+                out.append(mk(b1, how, junk=True, alts=[(b2, "zerofill")]))
+    return out
+
+
+def cut_payload(data: bytes, marks: typing.List[dict], i: int, cut: int):
+    """The representation with the payload of delimited object i (index of its header mark) ending after `cut` bytes:
+    (b1, b2) - in b1 the headers of the object and of the objects around it are lowered and what followed the object
+    follows the cut directly; in b2 the headers are unchanged and the cut-off part of the payload is zero."""
+    m = marks[i]
+    start = m["at"] // 8 + 4
+    size = m["size"]
+    end = start + size
+    if not 0 <= cut < size:
+        return None
+    gone = size - cut
+    b1 = bytearray(data[:start + cut] + data[end:])
+    for j in [i] + list(m["anc"]):
+        at = marks[j]["at"] // 8
+        v = int.from_bytes(b1[at:at + 4], "little") - gone
+        if v < 0:
+            return None
+        b1[at:at + 4] = v.to_bytes(4, "little")
+    b2 = data[:start + cut] + bytes(gone) + data[end:]
+    return bytes(b1), b2
+
+
+def _rel(n: int, at: int) -> str:
+    """Where byte position n lies relative to a 4-byte delimiter header starting at byte `at`."""
+    return "in-front-of-header" if n < at else "at-header-start" if n == at else "inside-header" if n < at + 4 else \
+        "at-header-end" if n == at + 4 else "behind-header"
+
+
+def header_cuts(rng: random.Random, data: bytes, marks: typing.List[dict]) -> typing.List[typing.Tuple[int, str]]:
+    """Lengths n < len(data) such that data[:n] ends around a delimiter header (any nesting depth, the top-level one
+    included), with the relation of the cut to the nearest header chosen."""
+    hs = [m for m in marks if m["kind"] == "hdr"]
+    if len(hs) > 3:
+        hs = rng.sample(hs, 3)
+    out: typing.Dict[int, str] = {}
+    for m in hs:
+        at = m["at"] // 8
+        for n in range(max(0, at - 2), at + 7):
+            if n < len(data) and n not in out:
+                out[n] = _rel(n, at) + "/depth%d" % min(3, len(m["anc"]))
+    return sorted(out.items())
+
+
+def inner_header_cuts(rng: random.Random, data: bytes, marks: typing.List[dict]):
+    """(b1, b2, how) for an enclosing delimited object whose payload ends at every byte position around the header of a
+    delimited object nested in it (directly or deeper)."""
+    pairs = [(i, j) for j, m in enumerate(marks) if m["kind"] == "hdr" for i in m["anc"] if marks[i]["size"] > 0]
+    if not pairs:
+        return []
+    direct = [(i, j) for i, j in pairs if marks[j]["anc"][-1] == i]
+    # (not direct: the header of the object in between then announces more than the shortened payload holds - rejected)
+    i, j = rng.choice(direct if direct and rng.random() < 0.85 else pairs)
+    start = marks[i]["at"] // 8 + 4
+    c0 = marks[j]["at"] // 8 - start
+    out = []
+    for cut in range(c0 - 2, c0 + 7):
+        r = cut_payload(data, marks, i, cut)
+        if r is not None:
+            where = "top" if not marks[i]["anc"] and marks[i]["at"] == 0 and start + marks[i]["size"] == len(data) else "nested"
+            out.append((r[0], r[1], "innercut:%s/%s" % (where, _rel(cut, c0))))
     return out
 
 
@@ -1189,16 +1703,8 @@ def short_payload(rng: random.Random, data: bytes, marks: typing.List[dict]):
             where += "/array"
     if cut is None:
         cut = rng.choice([0, size - 1, rng.randint(0, size - 1)])
-    gone = size - cut
-    b1 = bytearray(data[:start + cut] + data[end:])
-    for j in [i] + list(m["anc"]):
-        at = marks[j]["at"] // 8
-        v = int.from_bytes(b1[at:at + 4], "little") - gone
-        if v < 0:
-            return None
-        b1[at:at + 4] = v.to_bytes(4, "little")
-    b2 = data[:start + cut] + bytes(gone) + data[end:]
-    return bytes(b1), b2, where
+    r = cut_payload(data, marks, i, cut)
+    return None if r is None else (r[0], r[1], where)
 
 
 def gen_blob_type(rng: random.Random):
@@ -1232,6 +1738,37 @@ def gen_blob_type(rng: random.Random):
         ty, _ = wrap_container(rng, ty, ty)
     if ty[0] not in ("struct", "union"):
         ty = ["struct", [ty] + [gen_prim(rng) for _ in range(rng.randint(1, 2))], None]
+    return ty
+
+
+def gen_nest_type(rng: random.Random):
+    """Delimited objects inside delimited objects (2-4 levels; as field, fixed / variable array element, union variant)
+    with few small - also no - fields in front of and behind them, sealed or delimited at the top: the shapes in which
+    the data, or the payload an enclosing header announces, can end in front of / inside / right behind a delimiter header."""
+    def small():
+        return rng.choice([["uint", 8, "sat"], ["bool"], ["uint", 16, "trunc"], ["sint", 5, "sat"], ["uint", 3, "sat"], ["float", 16, "sat"],
+                           ["uint", 64, "sat"], ["varr", ["uint", 8, "sat"], 3], ["varr", ["byte"], 5], ["farr", ["bool"], 9], ["void", 4]])
+
+    def smalls(lo, hi):
+        return [small() for _ in range(rng.randint(lo, hi))]
+
+    d = ["struct", smalls(0, 3), None]
+    d[2] = inner_max(d) + 8 * rng.choice([0, 0, 2, 8])
+    ty = d
+    for _ in range(rng.choice([1, 1, 2, 2, 3])):
+        x = rng.random()
+        inner = ty
+        if rng.random() < 0.35:
+            inner = rng.choice([["varr", ty, rng.choice([1, 2, 3])], ["farr", ty, rng.choice([1, 2])]])
+        if x < 0.7:
+            t = ["struct", smalls(0, 2) + [inner] + smalls(0, 2), None]
+        else:
+            vs = [v for v in smalls(1, 2) if v[0] != "void"] or [["uint", 8, "sat"]]
+            k = rng.randint(0, len(vs))
+            t = ["union", vs[:k] + [inner] + vs[k:], None]
+        if rng.random() < 0.75:
+            t[2] = inner_max(t) + 8 * rng.choice([0, 0, 3])
+        ty = t
     return ty
 
 
@@ -1471,6 +2008,8 @@ def gen_seq_case(rng: random.Random, prop: str):
         rng.shuffle(order)
         slots = [order[k] for k in slots]
     steps = []
+    for v in variants:
+        v["attrs"] = gen_attr_plan(rng, v["ty"]) if rng.random() < 0.3 else None
     for k in slots:
         ty, nm = variants[k]["ty"], variants[k]["nm"]
         if prop == "C07":
@@ -1497,13 +2036,15 @@ def gen_seq_case(rng: random.Random, prop: str):
             st = gen_enc_case(rng, ty, kind)
         st["slot"] = k
         st["nm"] = nm
+        if variants[k]["attrs"] is not None:
+            st["attrs"] = variants[k]["attrs"]
         steps.append(st)
     return {"op": "seq", "hdr": False, "prebuild": rng.random() < 0.4, "steps": steps, "muts": muts}
 
 
 # ---- C14: revisions of a delimited structure nested in containers
 
-def gen_xrev_case(rng: random.Random) -> dict:
+def gen_xrev_case(rng: random.Random, src_ok: bool = True) -> dict:
     nf = rng.randint(0, 4)
     ng = rng.randint(1, 3)
     if rng.random() < 0.12:
@@ -1531,7 +2072,12 @@ def gen_xrev_case(rng: random.Random) -> dict:
     if tw[2] is not None and rng.random() < 0.5:
         hdr = True
     st = {"omit": rng.choice([0.0, 0.1]), "big": 1}
-    return {"op": "xrev", "tyW": tw, "tyR": tr, "val": gen_value(rng, tw, st), "hdr": hdr}
+    case = {"op": "xrev", "tyW": tw, "tyR": tr, "val": gen_value(rng, tw, st), "hdr": hdr}
+    if rng.random() < 0.3:
+        case["attrsW"], case["attrsR"] = gen_attr_plan(rng, tw), gen_attr_plan(rng, tr)
+    if src_ok and rng.random() < 0.35:
+        case["src"] = gen_src(rng, [tw, tr])
+    return case
 
 
 def gen_xrev_seq_case(rng: random.Random):
@@ -1539,8 +2085,9 @@ def gen_xrev_seq_case(rng: random.Random):
     nested in them carry the same full name and version (the old and the new checkout of a namespace side by side) and,
     by the layout half of C14, the same bit length set - the library's `==` cannot tell them apart.  Data is written and
     read with them in every order (old -> new, new -> old, each one its own data)."""
-    base = gen_xrev_case(rng)
+    base = gen_xrev_case(rng, src_ok=False)
     types = [base["tyW"], base["tyR"]]
+    plans = [base.get("attrsW"), base.get("attrsR")]
     if t_max(types[0]) > 6000:
         return None
     n = rng.randint(2, 6)
@@ -1551,7 +2098,8 @@ def gen_xrev_seq_case(rng: random.Random):
     for w, r in pairs:
         st = {"omit": rng.choice([0.0, 0.1]), "big": 1}
         steps.append({"op": "xrev", "tyW": types[w], "tyR": types[r], "val": gen_value(rng, types[w], st),
-                      "hdr": types[w][2] is not None and rng.random() < 0.5, "slotW": w, "slotR": r})
+                      "hdr": types[w][2] is not None and rng.random() < 0.5, "slotW": w, "slotR": r,
+                      "attrsW": plans[w], "attrsR": plans[r]})
     return {"op": "seq", "hdr": False, "prebuild": rng.random() < 0.4, "steps": steps, "muts": ["revise"]}
 
 
@@ -1639,16 +2187,28 @@ class WireSuite(common.Suite):
                 continue
             budget = rng.choice([200, 600, 2000, 2000, 6000])
             blob = prop == "C07" and x < 0.25
+            nest = prop == "C07" and 0.25 <= x < 0.40
             if blob:
                 ty = gen_blob_type(rng)
+            elif nest:
+                ty = gen_nest_type(rng)
             else:
                 ty = gen_type(rng, rng.choice([1, 2, 2, 3, 3, 4]), budget, top=True)
+            # the same definition with its constants anywhere in the attribute list (constructors take any order)
+            plan = gen_attr_plan(rng, ty) if rng.random() < (0.4 if prop == "C06" else 0.2) else None
             if prop == "C06":
-                for _ in range(rng.randint(2, 5)):
-                    kind = rng.choice(["plain", "plain", "relaxed", "relaxed", "invalid"])
-                    cases.append(gen_enc_case(rng, ty, kind))
+                new = [gen_enc_case(rng, ty, rng.choice(["plain", "plain", "relaxed", "relaxed", "invalid"])) for _ in range(rng.randint(2, 5))]
             else:
-                cases += gen_dec_cases(rng, ty, rng.randint(3, 8), short_bias=blob)
+                new = gen_dec_cases(rng, ty, rng.randint(3, 8), short_bias=blob, hdr_bias=nest)
+            if plan is not None:
+                for c in new:
+                    c["attrs"] = plan
+            if rng.random() < 0.06 and t_max(ty) <= 20000:
+                # the same definition read from DSDL text / built under other version numbers / as a service section
+                src = gen_src(rng, [ty])
+                for c in new:
+                    c["src"] = src
+            cases += new
         return cases[:n]
 
     def corpus(self, prop):
@@ -1664,14 +2224,14 @@ class WireSuite(common.Suite):
                  "explicit": nv, "relaxed": True, "hdr": False, "valid": True},
                 {"op": "enc", "ty": big, "val": v, "explicit": v, "relaxed": False, "hdr": False, "valid": True},
                 _corpus_lookalikes(),
-            ]
+            ] + _corpus_attribute_orders()
         if prop == "C07":
             d = ["struct", [u8, ["struct", [["uint", 16, "sat"], ["varr", ["utf8"], 10]], 256], ["uint", 5, "sat"]], None]
             return [
                 {"op": "dec", "ty": d, "hex": "0103000000aabb00" + "1f", "hdr": False, "ext": ["00", "ffee"], "extkind": ["zeros", "junk"], "complete": True, "expect": None, "how": "valid"},
                 {"op": "dec", "ty": d, "hex": "0104000000aabb00", "hdr": False, "ext": ["00", "0000"], "extkind": ["zeros", "zeros"], "complete": False, "expect": "rejected", "how": "sabotage:hdr"},
                 {"op": "dec", "ty": d, "hex": "", "hdr": False, "ext": ["00"], "extkind": ["zeros"], "complete": False, "expect": None, "how": "prefix"},
-            ] + _corpus_short_payload()
+            ] + _corpus_short_payload() + _corpus_header_cuts()
         if prop == "C14":
             old = ["struct", [u8], 64]
             new = ["struct", [u8, ["sint", 16, "sat"], ["varr", ["byte"], 3]], 64]
@@ -1686,6 +2246,12 @@ class WireSuite(common.Suite):
                     {"op": "xrev", "tyW": ["struct", [["varr", new, 3], u8], None], "tyR": ["struct", [["varr", old, 3], u8], None], "val": v2, "hdr": False, "slotW": 1, "slotR": 0},
                     {"op": "xrev", "tyW": ["struct", [["varr", new, 3], u8], None], "tyR": ["struct", [["varr", new, 3], u8], None], "val": v2, "hdr": False, "slotW": 1, "slotR": 1},
                     {"op": "xrev", "tyW": ["struct", [["varr", old, 3], u8], None], "tyR": ["struct", [["varr", old, 3], u8], None], "val": v, "hdr": False, "slotW": 0, "slotR": 0}]},
+            ] + [
+                # the same pair from DSDL text / under other version numbers / as a service section
+                {"op": "xrev", "tyW": ["struct", [["varr", a, 3], u8], None], "tyR": ["struct", [["varr", b, 3], u8], None], "val": val, "hdr": False,
+                 "src": {"mode": mode, "rev": [major, 1, 2], "vers": [[major, 3], [1, 0]], "layout": layout, "reader": "namespace", "svc": svc}}
+                for major in (0, 1, 2) for (a, b, val) in ((old, new, v), (new, old, v2))
+                for mode, layout, svc in (("dsdl", "side", None), ("dsdl", "checkouts", "request"), ("ctor", "side", "response"))
             ]
         return []
 
@@ -1708,14 +2274,14 @@ class WireSuite(common.Suite):
 
         def roles(st):  # (slot, type, names) of every type a step uses
             if st["op"] == "xrev":
-                return [(st["slotW"], st["tyW"], None), (st["slotR"], st["tyR"], None)]
-            return [(st["slot"], st["ty"], st.get("nm"))]
+                return [(st["slotW"], st["tyW"], None, st.get("attrsW")), (st["slotR"], st["tyR"], None, st.get("attrsR"))]
+            return [(st["slot"], st["ty"], st.get("nm"), st.get("attrs"))]
 
         def get(st):
-            for k, ty, nm in roles(st):
+            for k, ty, nm, plan in roles(st):
                 if k not in objs:
-                    objs[k] = build_named(ty, g, nm)
-            ts = [objs[k] for k, _, _ in roles(st)]
+                    objs[k] = build_named(ty, g, nm, "", plan)
+            ts = [objs[k] for k, _, _, _ in roles(st)]
             return ts[0] if len(ts) == 1 else tuple(ts)
 
         if case.get("prebuild"):
@@ -1728,7 +2294,7 @@ class WireSuite(common.Suite):
             except Exception as ex:  # noqa
                 out = {"res": "harness:" + type(ex).__name__, "soft_err": str(ex)[:300]}
             try:
-                fresh = [build_named(ty, "%sx%d%s" % (g, i, "abc"[j]), nm) for j, (_, ty, nm) in enumerate(roles(st))]
+                fresh = [build_named(ty, "%sx%d%s" % (g, i, "abc"[j]), nm, "", plan) for j, (_, ty, nm, plan) in enumerate(roles(st))]
                 twin = self._run_impl(st, fresh[0] if len(fresh) == 1 else tuple(fresh))
             except Exception as ex:  # noqa
                 twin = {"res": "harness:" + type(ex).__name__, "soft_err": str(ex)[:300]}
@@ -1736,7 +2302,7 @@ class WireSuite(common.Suite):
             out["soft_twin"] = None if a == b else json.dumps(b, sort_keys=True)[:400]
             outs.append(out)
         ks = sorted(objs)
-        tys = [ty for st in steps for _, ty, _ in roles(st)]
+        tys = [ty for st in steps for _, ty, _, _ in roles(st)]
         if all(_fixed_elements(ty) for ty in tys):
             # (informative only) does the library itself regard the objects as equal?  Asked only where its set
             # arithmetic is cheap: the remainder of a repetition of a many-valued set can take it many seconds.
@@ -1757,7 +2323,7 @@ class WireSuite(common.Suite):
             return self._run_seq(case)
         if op == "enc":
             ty = case["ty"]
-            T = build(ty) if T is None else T
+            T = case_types(case, [("ty", "attrs")])[0] if T is None else T
             try:
                 data = P.serialize(T, to_py(case["val"], nm), with_delimiter_header=hdr, relaxed=case["relaxed"])
             except Exception as ex:  # noqa
@@ -1769,11 +2335,11 @@ class WireSuite(common.Suite):
                     out["soft_hex_explicit"] = P.serialize(T, to_py(case["explicit"], nm), with_delimiter_header=hdr).hex()
                 except Exception as ex:  # noqa
                     out["soft_hex_explicit"] = "exception " + type(ex).__name__
-            out["soft_bls"] = bls_check(T, ty, hdr, 8 * len(data))
+            out["soft_bls"] = bls_check(T, ty, hdr, 8 * len(data), case.get("attrs"), case.get("src"))
             return out
         if op == "dec":
             ty = case["ty"]
-            T = build(ty) if T is None else T
+            T = case_types(case, [("ty", "attrs")])[0] if T is None else T
             data = bytes.fromhex(case["hex"])
             out = impl_dec(T, ty, data, hdr, True, nm)
             out["ext"] = [impl_dec(T, ty, data + bytes.fromhex(e), hdr, False, nm) for e in case["ext"]]
@@ -1782,7 +2348,7 @@ class WireSuite(common.Suite):
             return out
         if op == "xrev":
             tw, tr = case["tyW"], case["tyR"]
-            TW, TR = (build(tw), build(tr)) if T is None else T
+            TW, TR = case_types(case, [("tyW", "attrsW"), ("tyR", "attrsR")]) if T is None else T
             try:
                 data = P.serialize(TW, to_py(case["val"]), with_delimiter_header=hdr)
             except Exception as ex:  # noqa
@@ -1895,7 +2461,18 @@ class WireSuite(common.Suite):
                 return "decoded value is not a fixed point of serialize/deserialize: %s" % (impl.get("soft_fix"),)
         if case.get("expect") == "rejected" and impl["res"] == "ok":
             return "%s: an illegal length / tag / header was accepted, value %s" % (case["how"], _short(impl["val"]))
-        hdr_involved = impl.get("soft_cls") == "serdes:DelimiterHeaderError"
+        # Does a delimiter header of b announce more than the data that is there (the one situation in which b and
+        # b + zeros may differ)?  Decided by the reference reading of b, not by what the library chose to raise: a
+        # header that lies partly or wholly behind the end of the data reads as zeros / the bytes that are there plus
+        # zeros, and a header of 0 exceeds nothing.
+        why, _ = ref_scan(case["ty"], bytes.fromhex(case["hex"]), case["hdr"])
+        if why == "budget":
+            hdr_involved = impl.get("soft_cls") == "serdes:DelimiterHeaderError"
+        else:
+            hdr_involved = why == "hdr"
+            if why is not None and impl["res"] == "ok":
+                return "%s: accepted although the Specification's reading of the bytes meets %s; value %s" % (
+                    case["how"], SCAN_WHAT[why], _short(impl["val"]))
         for kind, o in zip(case["extkind"], impl.get("ext", [])):
             if kind == "zeros":
                 if hdr_involved:
@@ -1913,6 +2490,9 @@ class WireSuite(common.Suite):
                             "written out as zeros to %s" % (_brief(impl), _brief(o)))
         if case["complete"] and impl["res"] != "ok":
             return "a valid representation was rejected (%s)" % impl.get("soft_cls")
+        if why is None and impl.get("soft_cls") in SCAN_CLASS:
+            return "rejected with %s although, read with implicit zero extension, the bytes hold %s" % (
+                impl["soft_cls"].split(":")[1], SCAN_CLASS[impl["soft_cls"]])
         if case["complete"] and "want" in case and impl.get("val") != case["want"]:
             return "the Specification's encoding of %s decodes to %s" % (_short(case["want"]), _short(impl.get("val")))
         return None
@@ -1955,7 +2535,7 @@ class WireSuite(common.Suite):
             for i, st in enumerate(steps):
                 n = 0
                 for cand in self.shrink(st):
-                    if cand.get("ty") != st.get("ty"):
+                    if cand.get("ty") != st.get("ty") or any(cand.get(k) != st.get(k) for k in ("attrs", "attrsW", "attrsR")):
                         continue  # the types of a history are what makes it one: only values / bytes shrink
                     if cand.get("tyW") != st.get("tyW") or cand.get("tyR") != st.get("tyR"):
                         continue
@@ -1970,6 +2550,13 @@ class WireSuite(common.Suite):
                     if n >= 12:
                         break
             return
+        yield from _shrink_plans(case)
+        src = case.get("src")
+        if src is not None:
+            yield {k: v for k, v in case.items() if k != "src"}
+            for key, simple in (("svc", None), ("layout", "side"), ("reader", "namespace"), ("vers", [[1, 0]]), ("rev", [1, 0, 1])):
+                if src.get(key) != simple:
+                    yield dict(case, src=dict(src, **{key: simple}))
         if op == "dec":
             if case["ext"]:
                 for i in range(len(case["ext"])):
@@ -2007,6 +2594,8 @@ class WireSuite(common.Suite):
                     c = dict(case)
                     c["ty"] = nt
                     c["val"] = c["explicit"] = {"d": nd}
+                    if "attrs" in case:
+                        c["attrs"] = plan_drop_field(ty, case["attrs"], j)
                     yield c
             for nv in _shrink_value(v):
                 c = dict(case)
@@ -2035,6 +2624,8 @@ class WireSuite(common.Suite):
                 yield "lookalike:with-union"
             if any(t[0] in ("struct", "union") and t[2] is not None for ty in tys for t in t_walk(ty)):
                 yield "lookalike:with-delimited"
+            if any(plan_norm(st.get(k)) is not None for st in case["steps"] for k in ("attrs", "attrsW", "attrsR")):
+                yield "lookalike:with-constants-in-attribute-lists"
             outs = impl.get("steps") or []
             for st, out in zip(case["steps"], outs):
                 if st["op"] == "enc":
@@ -2066,6 +2657,17 @@ class WireSuite(common.Suite):
                     yield "prim:" + k
         if case["hdr"]:
             yield "top-level-header"
+        for ty, key in zip(tys, ["attrs"] if op != "xrev" else ["attrsW", "attrsR"]):
+            yield "attribute-list:" + plan_class(ty, case.get(key))
+        src = case.get("src")
+        yield "source:" + ("constructors/version-1.0" if src is None else "dsdl-text" if src["mode"] == "dsdl" else "constructors/versioned")
+        if src is not None:
+            yield "source:top-level-" + ("service-" + src["svc"] if src["svc"] else "message")
+            yield "source:definitions-under-major-version-0:%s" % any(v[0] == 0 for v in src["vers"])
+            if op == "xrev":
+                yield "revised-type-major-version:%s" % (src["rev"][0] if src["rev"][0] < 2 else "2+")
+                if src["mode"] == "dsdl":
+                    yield "dsdl:%s/read_%s" % ("two-minor-versions-side-by-side" if src["layout"] == "side" else "two-checkouts", src["reader"])
         if op == "enc":
             yield "enc:" + ("relaxed" if case["relaxed"] else "plain" if case["valid"] else "invalid")
             yield "enc-result:" + impl.get("res", "?")
@@ -2077,6 +2679,9 @@ class WireSuite(common.Suite):
                 for e in sorted({t[1][0] if t[1][0] in ("byte", "utf8") else "uint8" if t[1][:2] == ["uint", 8] else "other" for t in t_arr}):
                     yield "shortpayload-type-has-array-of:" + e
                 yield "shortpayload-result:" + (impl.get("soft_cls") or impl.get("res", "?"))
+            if case["how"].startswith(("hdrcut", "innercut")):
+                yield "dec:" + case["how"]
+                yield case["how"].split(":")[0] + "-result:" + (impl.get("soft_cls") or impl.get("res", "?"))
             yield "dec-result:" + (impl.get("soft_cls") or impl.get("res", "?"))
         else:
             yield "xrev:" + ("appended" if t_max_fields(case["tyW"]) < t_max_fields(case["tyR"]) else "removed")
@@ -2111,6 +2716,49 @@ def _corpus_lookalikes() -> dict:
         enc(uc, None, 2, {"d": [[1, [1, 2]]]}),
         enc(ub, nb, 1, {"d": [[1, {"x": "a1b2", "str": False}]]}),
     ]}
+
+
+def _corpus_attribute_orders() -> typing.List[dict]:
+    """One union / one structure with the constants of the definition last, first, and one in front of every field."""
+    u = ["union", [["uint", 8, "sat"], ["sint", 16, "sat"], ["float", 32, "sat"], ["varr", ["utf8"], 16]], None]
+    holder = ["struct", [["bool"], u, ["varr", u, 3], ["void", 3], ["union", u[1], 256]], None]
+    hv = {"d": [[0, True], [1, {"d": [[2, {"bits": 0xBE800000, "src": ["f", 0xBFD0000000000000]}]]}],
+                [2, [{"d": [[1, 300]]}, {"d": [[3, {"x": "676f", "str": True}]]}, {"d": [[0, 1]]}]], [4, {"d": [[1, -300]]}]]}
+    out = []
+    for own in ([4, 4, 4, 4], [0, 0, 0, 0], [0, 1, 2, 3]):
+        for val in ({"d": [[0, 7]]}, {"d": [[1, -2]]}, {"d": [[3, {"x": "68c3a96c6c6f", "str": True}]]}):
+            out.append({"op": "enc", "ty": u, "val": val, "explicit": val, "relaxed": False, "hdr": False, "valid": True, "attrs": [own]})
+        out.append({"op": "enc", "ty": holder, "val": hv, "explicit": hv, "relaxed": False, "hdr": False, "valid": True,
+                    "attrs": [[0, 2, 5], own, own, own]})
+    return out
+
+
+def _corpus_header_cuts() -> typing.List[dict]:
+    """Data that ends in front of / inside the delimiter header of a nested object, of the top-level object, and a payload
+    of an enclosing delimited object that ends in front of / inside the header of the object nested in it."""
+    rec = ["struct", [["uint", 16, "sat"], ["bool"]], 128]
+    msg = ["struct", [["uint", 8, "sat"], rec, ["uint", 8, "sat"]], None]
+    env = ["struct", [["uint", 8, "sat"], rec], 512]
+    top = ["struct", [env, ["uint", 16, "sat"]], None]
+    z = ["00", "0000", "000000", "00000000", "00" * 9, "00" * 40]
+
+    def dec(ty, hx, hdr, how, **kw):
+        return dict({"op": "dec", "ty": ty, "hex": hx, "hdr": hdr, "ext": z, "extkind": ["zeros"] * len(z), "complete": False, "expect": None, "how": how}, **kw)
+
+    out = [dec(msg, hx, False, "hdrcut:" + rel) for hx, rel in (("", "in-front-of-header/depth0"), ("05", "at-header-start/depth0"), ("0500", "inside-header/depth0"),
+                                                                 ("05000000", "inside-header/depth0"), ("0500000000", "at-header-end/depth0"))]
+    out += [dec(rec, hx, True, "hdrcut:" + rel) for hx, rel in (("", "at-header-start/depth0"), ("0000", "inside-header/depth0"), ("00000000", "at-header-end/depth0"))]
+    full = "08000000" "07" "03000000" "341201" "cdab"
+    for cut, rel in ((0, "in-front-of-header"), (1, "at-header-start"), (3, "inside-header"), (5, "at-header-end")):
+        body = ("07" "03000000" "341201")[:2 * cut]
+        out.append(dec(top, "%02x000000" % cut + body + "cdab", False, "innercut:nested/" + rel, closed=True,
+                       alts=["08000000" + body + "00" * (8 - cut) + "cdab"], altkind=["zerofill"]))
+    for cut, rel in ((1, "at-header-start"), (2, "inside-header"), (4, "inside-header")):  # the nested object is empty (header 0)
+        body = ("07" "00000000")[:2 * cut]
+        out.append(dec(top, "%02x000000" % cut + body + "cdab", False, "innercut:nested/" + rel, closed=True,
+                       alts=["05000000" + body + "00" * (5 - cut) + "cdab"], altkind=["zerofill"]))
+    out.append(dec(top, full, False, "valid", complete=True, want={"s": [{"s": [7, {"s": [0x1234, True]}]}, 0xABCD]}))
+    return out
 
 
 def _corpus_short_payload() -> typing.List[dict]:
